@@ -64,4 +64,186 @@ theorem convStep_present (hint acc : List (String × Val)) (row : String × Stri
   · rcases h with h | h <;> (simp only at h hv; subst h; simp only [convStep, hv]; exact getKey_setKey_self _ _ _)
   · simp only at h hv; subst h; simp only [convStep, hv]; exact getKey_setKey_self _ _ _
 
+/-! ### the feature statements, interpreted -/
+
+/-- an entry of the robofab part of lib.plist as the statements see it -/
+inductive LibVal where
+  | text (s : String)
+  | list (l : List String)
+  | dict (d : List (String × String))
+
+/-- `lib_data.<member>` by lib key -/
+def Robofab.entry (r : Robofab) (key : String) : Option LibVal :=
+  if key = "org.robofab.opentype.classes" then r.classes.map .text
+  else if key = "org.robofab.opentype.featureorder" then r.order.map .list
+  else if key = "org.robofab.opentype.features" then r.feats.map .dict
+  else none
+
+/-- Rust's `Vec<String>::sort()` (byte order of UTF-8 = code point order) -/
+def sortKeys (l : List String) : List String := l.mergeSort (fun a b => decide (a ≤ b))
+
+/-- the order of the blocks when the lib has no order list -/
+def fallbackBlocks (fallback : String) (fs : List (String × String)) : List String :=
+  if fallback = "sorted" then sortKeys (fs.map (·.1)) else fs.map (·.1)
+
+/-- the lib key of the statement that supplies the order of the blocks -/
+def orderKeyOf (rows : List (String × String × RConv)) : Option String :=
+  match rows.find? (fun row => row.2.2 == .blockOrder) with
+  | some row => some row.1
+  | none => none
+
+/-- one feature statement: `push_str` of the classes; `push('\n')` and `push_str` of every block the order names
+    (a tag without a block is skipped, a repeated tag repeats its block); the order row itself emits nothing -/
+def featStep (rows : List (String × String × RConv)) (fallback : String) (r : Robofab) (acc : String)
+    (row : String × String × RConv) : String :=
+  match row.2.2, r.entry row.1 with
+  | .appendText, some (.text s) => acc ++ s
+  | .newlineThenBlocks, some (.dict fs) =>
+    let order := match (orderKeyOf rows).bind r.entry with
+      | some (.list o) => o
+      | _ => fallbackBlocks fallback fs
+    acc ++ "\n" ++ String.join (order.filterMap fun k => lookup fs k)
+  | _, _ => acc
+
+/-- `let mut features = String::new();` followed by the translated statements -/
+def featureTextOf (rows : List (String × String × RConv)) (fallback : String) (r : Robofab) : String :=
+  rows.foldl (featStep rows fallback r) ""
+
+/-- the model's reading of "no order list": with the fallback `sorted` it is the order list of the sorted tags -/
+def withFallback (fallback : String) (r : Robofab) : Robofab :=
+  match r.order, r.feats with
+  | none, some fs => if fallback = "sorted" then { r with order := some (sortKeys (fs.map (·.1))) } else r
+  | _, _ => r
+
+/-- folding the model's feature statements is the model's `featureText`, for every robofab lib -/
+theorem featureTextOf_model (fallback : String) (r : Robofab) :
+    featureTextOf modelFeatureTable fallback r = featureText (withFallback fallback r) := by
+  obtain ⟨hint, classes, order, feats⟩ := r
+  have hk : orderKeyOf modelFeatureTable = some "org.robofab.opentype.featureorder" := by decide
+  have hfold : ∀ r : Robofab, featureTextOf modelFeatureTable fallback r =
+      featStep modelFeatureTable fallback r (featStep modelFeatureTable fallback r
+        (featStep modelFeatureTable fallback r "" ("org.robofab.opentype.classes", "features", .appendText))
+        ("org.robofab.opentype.features", "features", .newlineThenBlocks))
+        ("org.robofab.opentype.featureorder", "features", .blockOrder) := fun _ => rfl
+  rw [hfold]
+  simp only [featStep, hk]
+  by_cases hs : fallback = "sorted" <;> cases classes <;> cases feats <;> cases order <;>
+    simp [Robofab.entry, featureText, withFallback, fallbackBlocks, String.empty_append, hs]
+
+theorem entry_dict (r : Robofab) (key : String) (d : List (String × String))
+    (h : r.entry key = some (.dict d)) : key = "org.robofab.opentype.features" := by
+  unfold Robofab.entry at h
+  split at h
+  · cases hc : r.classes <;> simp [hc] at h
+  · split at h
+    · cases ho : r.order <;> simp [ho] at h
+    · split at h
+      · assumption
+      · cases h
+
+/-! ### the text does not depend on the iteration order of the block map -/
+
+theorem lookup_mem {β} {fs : List (String × β)} (hn : (fs.map (·.1)).Nodup) (k : String) (v : β) :
+    lookup fs k = some v ↔ (k, v) ∈ fs := by
+  induction fs with
+  | nil => simp [lookup_nil]
+  | cons a t ih =>
+    rw [lookup_cons]
+    simp only [List.map_cons, List.nodup_cons] at hn
+    by_cases h : a.1 = k
+    · simp only [h, if_true, Option.some.injEq, List.mem_cons]
+      constructor
+      · intro e; left; rw [← e, ← h]
+      · rintro (e | e)
+        · rw [← e]
+        · exact absurd (List.mem_map.2 ⟨(k, v), e, rfl⟩) (h ▸ hn.1)
+    · simp only [h, if_false, List.mem_cons]
+      rw [ih hn.2]
+      constructor
+      · exact Or.inr
+      · rintro (e | e)
+        · exact absurd (by rw [← e]) h
+        · exact e
+
+theorem lookup_perm {β} {fs fs' : List (String × β)} (hp : fs'.Perm fs) (hn : (fs.map (·.1)).Nodup)
+    (k : String) : lookup fs' k = lookup fs k := by
+  have hn' : (fs'.map (·.1)).Nodup := (hp.map _).nodup_iff.2 hn
+  cases h : lookup fs k with
+  | some v => exact (lookup_mem hn' k v).2 (hp.mem_iff.2 ((lookup_mem hn k v).1 h))
+  | none =>
+    cases h' : lookup fs' k with
+    | none => rfl
+    | some v =>
+      have := (lookup_mem hn k v).2 (hp.mem_iff.1 ((lookup_mem hn' k v).1 h'))
+      rw [h] at this; cases this
+
+theorem sortKeys_perm {l l' : List String} (hp : l'.Perm l) : sortKeys l' = sortKeys l := by
+  have tr : ∀ a b c : String, decide (a ≤ b) = true → decide (b ≤ c) = true → decide (a ≤ c) = true := by
+    intro a b c h1 h2
+    exact decide_eq_true (String.le_trans (of_decide_eq_true h1) (of_decide_eq_true h2))
+  have tot : ∀ a b : String, (decide (a ≤ b) || decide (b ≤ a)) = true := by
+    intro a b
+    rcases String.le_total a b with h | h <;> simp [h]
+  apply List.Perm.eq_of_pairwise (le := fun a b => decide (a ≤ b) = true)
+  · intro a b _ _ h1 h2
+    exact String.le_antisymm (of_decide_eq_true h1) (of_decide_eq_true h2)
+  · exact List.pairwise_mergeSort tr tot l'
+  · exact List.pairwise_mergeSort tr tot l
+  · exact (List.mergeSort_perm l' _).trans (hp.trans (List.mergeSort_perm l _).symm)
+
+/-- with the fallback `sorted` (or with an order list) two block maps holding the same blocks give the same text -/
+theorem featureTextOf_perm (rows : List (String × String × RConv)) (fallback : String) (r : Robofab)
+    (fs fs' : List (String × String)) (hp : fs'.Perm fs) (hn : (fs.map (·.1)).Nodup)
+    (hs : fallback = "sorted") :
+    featureTextOf rows fallback { r with feats := some fs' } = featureTextOf rows fallback { r with feats := some fs } := by
+  have hl : (fun k => lookup fs' k) = (fun k => lookup fs k) := by funext k; exact lookup_perm hp hn k
+  have hf : fallbackBlocks fallback fs' = fallbackBlocks fallback fs := by
+    simp only [fallbackBlocks, hs, if_true]
+    exact sortKeys_perm (hp.map _)
+  have hentry : ∀ key, key ≠ "org.robofab.opentype.features" →
+      Robofab.entry { r with feats := some fs' } key = Robofab.entry { r with feats := some fs } key := by
+    intro key hne
+    simp [Robofab.entry, hne]
+  have hstep : ∀ acc row, featStep rows fallback { r with feats := some fs' } acc row =
+      featStep rows fallback { r with feats := some fs } acc row := by
+    intro acc row
+    by_cases hkey : row.1 = "org.robofab.opentype.features"
+    · have hord : (orderKeyOf rows).bind (Robofab.entry { r with feats := some fs' }) =
+          (orderKeyOf rows).bind (Robofab.entry { r with feats := some fs }) ∨
+          ∃ d d', (orderKeyOf rows).bind (Robofab.entry { r with feats := some fs' }) = some (.dict d') ∧
+            (orderKeyOf rows).bind (Robofab.entry { r with feats := some fs }) = some (.dict d) := by
+        cases ho : orderKeyOf rows with
+        | none => left; rfl
+        | some ok =>
+          by_cases hok : ok = "org.robofab.opentype.features"
+          · right; exact ⟨fs, fs', by simp [Robofab.entry, hok], by simp [Robofab.entry, hok]⟩
+          · left; simp only [Option.bind_some]; exact hentry ok hok
+      simp only [featStep, hkey]
+      have e1 : Robofab.entry { r with feats := some fs' } "org.robofab.opentype.features" = some (.dict fs') := by
+        simp [Robofab.entry]
+      have e2 : Robofab.entry { r with feats := some fs } "org.robofab.opentype.features" = some (.dict fs) := by
+        simp [Robofab.entry]
+      rw [e1, e2]
+      cases hc : row.2.2 <;> simp only []
+      rcases hord with h | ⟨d, d', h1, h2⟩
+      · rw [h, hl]
+        cases (orderKeyOf rows).bind (Robofab.entry { r with feats := some fs }) with
+        | none => simp only [hf]
+        | some v => cases v <;> simp only [hf]
+      · rw [h1, h2, hl]; simp only [hf]
+    · have he := hentry row.1 hkey
+      unfold featStep
+      rw [he]
+      cases hv : Robofab.entry { r with feats := some fs } row.1 with
+      | none => cases row.2.2 <;> rfl
+      | some v =>
+        cases v with
+        | dict d => exact absurd (entry_dict _ _ _ hv) hkey
+        | text t => cases row.2.2 <;> rfl
+        | list l => cases row.2.2 <;> rfl
+  unfold featureTextOf
+  congr 1
+  funext acc row
+  exact hstep acc row
+
 end C14
